@@ -2318,3 +2318,99 @@ B2("C11", "flag-helper/soft-fallback-no-upper-bound", [
     (CONT, _GLPK_SOFT, "            _solve_with_glpk(cp.Minimize(disorders.T @ x), A @ x, 1, None)"),
     (CONT, "\n\ndef _compute_best_alignment_job(dissimilarity: AbstractDissimilarity,", _GLPK_HELPER)],
    "literal None folds the upper-bound branch away")
+
+# =============================================================================================
+# from the mutation sweep (first-order mutants no owner reported)
+# =============================================================================================
+M("C01", "sweep/unlabelled-refused-without-table", DIS,
+  """            if self.categories is not None:
+                raise ValueError("Units without annotation cannot be used with a dissimilarity \"""",
+  """            if self.categories is None:
+                raise ValueError("Units without annotation cannot be used with a dissimilarity \"""", "R-C01-6",
+  "the default dissimilarities refuse unlabelled units")
+M("C02", "sweep/pair-matrix-store-past-last-column", DIS,
+  """                for annot_b in range(nb_annot_b + 1):
+                    matrix[nb_annot_a, annot_b] = delta_empty""",
+  """                for annot_b in range(nb_annot_b + 2):
+                    matrix[nb_annot_a, annot_b] = delta_empty""", "R-C02-4", "a store one past the last row's end: heap corruption in compiled code")
+M("C07", "sweep/pair-matrix-store-past-last-row", DIS,
+  """                for annot_a in range(nb_annot_a + 1):
+                    matrix[annot_a, nb_annot_b] = delta_empty""",
+  """                for annot_a in range(nb_annot_a + 2):
+                    matrix[annot_a, nb_annot_b] = delta_empty""", "R-C07-", "")
+M("C04", "sweep/label-index-in-the-continuum-categories", DIS,
+  "        categories = continuum.categories if self.categories is None else self.categories",
+  "        categories = continuum.categories", "R-C04-0", "a continuum using a strict subset of the table's categories is looked up at shifted cells")
+M("C03", "sweep/label-index-in-the-alignment-categories", DIS,
+  "        categories = alignment.categories if self.categories is None else self.categories",
+  "        categories = alignment.categories", "R-C03-0")
+B("C04", "sweep/index-space-if-statement", DIS,
+  "        categories = continuum.categories if self.categories is None else self.categories",
+  """        categories = self.categories
+        if categories is None:
+            categories = continuum.categories""", "same index space, other spelling")
+M("C05", "sweep/ground-truth-ignored", SAM,
+  """            self._ground_truth_annotators = SortedSet(ground_truth_annotators)""",
+  """            self._ground_truth_annotators = self._reference_continuum.annotators""", "R-C05-2", "the given ground-truth annotators are checked and dropped")
+M("C16", "sweep/separated-draw-when-no-room", SAM,
+  "                if len(segments_available) != 0:", "                if len(segments_available) == 0:", "R-C16-3")
+B("C16", "sweep/room-test-truthiness", SAM,
+  "                if len(segments_available) != 0:", "                if segments_available:", "")
+B("C16", "sweep/room-test-swapped-branches", SAM,
+  """                if len(segments_available) != 0:
+                    pivot: float = self._random_from_segments(segments_available)
+                    segments_available = self._remove_pivot_segment(pivot, segments_available, min_dist_between_pivots)
+                else:
+                    pivot = np.random.uniform(bound_inf, bound_sup)""",
+  """                if not segments_available:
+                    pivot = np.random.uniform(bound_inf, bound_sup)
+                else:
+                    pivot: float = self._random_from_segments(segments_available)
+                    segments_available = self._remove_pivot_segment(pivot, segments_available, min_dist_between_pivots)""", "")
+M("C03", "sweep/n-tuple-setter-keeps-cached-disorder", ALI,
+  """        self._n_tuple = n_tuple
+        self._disorder = None""", """        self._n_tuple = n_tuple""", "R-SUP", "stale disorder after the tuple is replaced")
+M("C17", "sweep/n-tuple-setter-stores-nothing", ALI,
+  """        self._n_tuple = n_tuple
+        self._disorder = None""", """        self._disorder = None""", "R-C17-1")
+
+# =============================================================================================
+# round 6
+# =============================================================================================
+M("C13", "r6/unit-set-key-conflates-none-and-empty", CONT,
+  """        if annotator not in self._annotations:
+            self._annotations[annotator] = SortedSet()
+        if annotation is not None:""",
+  """        if annotator not in self._annotations:
+            self._annotations[annotator] = SortedSet(key=lambda u: (u.segment.start, u.segment.end, u.annotation or ""))
+        if annotation is not None:""", "R-C13-1", "the container's order no longer comes from Unit.__lt__")
+B("C13", "r6/sorted-set-with-key-none", CONT,
+  """        if annotator not in self._annotations:
+            self._annotations[annotator] = SortedSet()
+        if annotation is not None:""",
+  """        if annotator not in self._annotations:
+            self._annotations[annotator] = SortedSet(key=None)
+        if annotation is not None:""", "key=None is the default order")
+M("C06", "r6/sampler-keeps-snapshot-of-reference", SAM,
+  "        self._reference_continuum = reference_continuum\n",
+  "        self._reference_continuum = reference_continuum.copy()\n", "R-C06-7", "samples carry the window size of the previous call")
+M("C19", "r6/annotator-name-stripped", CONT,
+  """        if segment.duration == 0.0:
+            raise ValueError("Tried adding segment of duration 0.0")
+""", """        if segment.duration == 0.0:
+            raise ValueError("Tried adding segment of duration 0.0")
+        annotator = annotator.strip()
+""", "R-C19-1", "a requested annotator name with a trailing blank is not among the corpus' annotators")
+M("C18", "r6/annotator-name-lowered", CONT,
+  """        if segment.duration == 0.0:
+            raise ValueError("Tried adding segment of duration 0.0")
+""", """        if segment.duration == 0.0:
+            raise ValueError("Tried adding segment of duration 0.0")
+        annotator = str(annotator).lower()
+""", "R-C18-3")
+M("C01", "r6/alignment-drops-single-unit-alignments", ALI,
+  "        self.unitary_alignments = list(unitary_alignments)",
+  "        self.unitary_alignments = [ua for ua in unitary_alignments if ua.nb_units > 1]", "R-C01-4", "units aligned with nothing disappear from the result")
+B("C01", "r6/alignment-keeps-tuple", ALI,
+  "        self.unitary_alignments = list(unitary_alignments)",
+  "        self.unitary_alignments = list(tuple(unitary_alignments))", "")
